@@ -91,6 +91,16 @@ check("C05", "metamorphic property test: accepted control program vs the same pr
       "A fragment program the checker accepts is mutated at one expression position chosen uniformly among all positions (any nesting depth: function/lambda bodies, default arguments, loop and branch bodies, arguments, list elements, interpolations) by one of 17 definite errors (operators without implementation, wrong arity, unknown keyword, argument of a disjoint class, undefined name/callee, absent attribute); the mutant must yield >= 1 error diagnostic, and for a sample `erg run` must exit non-zero without output.",
       "The error table is restricted to expressions that are errors under every typing of the fragment.",
       "DESIGN.md §3 C05")
+check("C03", "property test against an exact reference decision of predicate implication (finite evaluation around the constants)",
+      "Pairs of integer refinement types (predicates of depth <= 3 over ==, !=, <, <=, >, >=, and, or, not and constants; interval forms with open/closed ends), the required type drawn independently or derived from the given one by moving constants, are checked as `g(x: P): Q = x`; an acceptance is a violation when some integer satisfies P and not Q. Implication is decided exactly by evaluating both predicates on every integer from 3 below the least to 3 above the greatest constant (all atoms are constant outside).",
+      "Soundness direction only (rejections of valid pairs are counted, not judged); one integer variable; the SMT solver of the statement is replaced by exhaustive evaluation, which is exact for this grammar.",
+      "DESIGN.md §3 C03")
+
+check("C06", "property test of algebraic laws of the subtype judgement over generated type expressions",
+      "Types of nesting depth <= 2 (tower classes, Str, NoneType, Never, Obj, traits, integer/string enums, intervals, immutable containers, unions, intersections); `S <: T` is observed as acceptance of `g(x: S): T = x`. Checked: reflexivity, Never <: T <: Obj, T <: (T or U), (T and U) <: T, enum/interval below the class of its values and the classes above, every pair of the numeric tower, transitivity over chains of documented steps and over random triples.",
+      "Type expressions the checker objects to as such (unsupported syntax such as a set of an enum) are discarded and counted; container covariance is not asserted (the statement does not promise it).",
+      "DESIGN.md §3 C06")
+
 check("C23", "model-based property test: generated move/use scripts over mutable variables against a reference model of the moved set",
       "Straight-line scripts of up to 14 operations over mutable lists and naturals at module top level or inside a procedure body: rebinding, list and tuple construction, passing for a mutable-typed parameter (moves); RefMut / Ref / immutable parameters, print!, procedural method calls (uses that do not move). The checker must report >= 1 MoveError exactly when the model has a use after a move, every MoveError must lie on a line the model marks, and no other error kind may be reported.",
       "Function (non-procedure) scope is not generated (any operation on a mutable object is an effect there); generic parameters, closures capturing a mutable variable and control flow are not generated because the statement leaves their verdict open.",
